@@ -29,7 +29,7 @@ class _Continue(Exception):
 
 
 class Frame:
-    __slots__ = ('locals', 'parent', 'globs', 'mangle', 'qualname', 'globals_decl', 'nonlocal_decl', 'fn', 'entry')
+    __slots__ = ('locals', 'parent', 'globs', 'mangle', 'qualname', 'globals_decl', 'nonlocal_decl', 'fn', 'entry', 'yields')
 
     def __init__(self, parent, globs, mangle, qualname, fn=None):
         self.locals = {}
@@ -41,6 +41,7 @@ class Frame:
         self.nonlocal_decl = set()
         self.fn = fn
         self.entry = {}
+        self.yields = None
 
 
 class SymMethod:
@@ -503,6 +504,14 @@ class Interp:
         try:
             if isinstance(clo.node, ast.Lambda):
                 return self.eval(clo.node.body, frame)
+            if self.is_generator(clo.node):
+                # generator function: evaluated eagerly (the library's generators are pure producers)
+                frame.yields = []
+                try:
+                    self.exec_block(clo.node.body, frame)
+                except _Return:
+                    pass
+                return list(frame.yields)
             try:
                 self.exec_block(clo.node.body, frame)
             except _Return as r:
@@ -1213,6 +1222,30 @@ class Interp:
 
     def e_Starred(self, node, frame):
         self.unsupported(node, "starred expression")
+
+    _gen_cache = {}
+
+    def is_generator(self, fnode):
+        k = id(fnode)
+        if k not in self._gen_cache:
+            found = False
+            stack = list(fnode.body)
+            while stack:
+                n = stack.pop()
+                if isinstance(n, (ast.Yield, ast.YieldFrom)):
+                    found = True
+                    break
+                if isinstance(n, (ast.FunctionDef, ast.Lambda, ast.ClassDef)):
+                    continue
+                stack.extend(ast.iter_child_nodes(n))
+            self._gen_cache[k] = found
+        return self._gen_cache[k]
+
+    def e_Yield(self, node, frame):
+        if frame.yields is None:
+            self.unsupported(node, "yield outside generator function")
+        frame.yields.append(self.eval(node.value, frame) if node.value is not None else None)
+        return None
 
     def e_NamedExpr(self, node, frame):
         v = self.eval(node.value, frame)
